@@ -125,6 +125,7 @@ def jobs_bounded(n):
 
 
 UNITS += [jobs_bounded(n) for n in (1, 2, 3, 4)]
+JOB_UNITS = list(UNITS)
 
 
 # ------------------------------------------------------------------------------ run_tagging_tasks: a job keeps its
